@@ -81,6 +81,9 @@ pub trait RefOps<B> {
     fn to_slice(&self) -> VolatileSlice<'static, B>;
     fn guard(&self) -> (usize, usize, usize, usize);
 }
+pub fn from_bytes_pub<T: ByteValued>(bytes: &[u8]) -> T {
+    from_bytes(bytes)
+}
 fn from_bytes<T: ByteValued>(bytes: &[u8]) -> T {
     let mut v = T::zeroed();
     let s = v.as_mut_slice();
